@@ -8,6 +8,11 @@ let code_variant = Fixed
 (* set to true once patches/0002-encoding-init-signals-after-states.diff is applied to /repo: the init block of
    init_at(0) is then compared, in order, with Encoding.init_at2 (c04.ml) and the loop events use it (c02.ml) *)
 let second_repair = true
+(* set to true once patches/0003-encoding-init-states-in-dependency-order.diff is applied to /repo as well: the
+   init block of init_at(0) is then the one of Encoding.init_at3 (states in the order of Encoding.init_order) *)
+let third_repair = false
+(* the init block of init_at(0) after the repairs that are applied *)
+let repaired_init_block ?(third = third_repair) en = if third then init_at3 en else init_at2 en
 
 let ty_of_sexp = function
   | Sexp.List [Sexp.Atom "bv"; w] -> TBV (num w)
@@ -56,7 +61,7 @@ let rec first_bad (d : (char list * ty) list) (cs : cmd list) : ((char list * ty
 let sym_leaf_name = function BVSymbol (n, _) -> Some n | ArraySymbol (n, _, _) -> Some n | _ -> None
 
 (* stable class of a strict-check failure *)
-let classify (sy : sys) (en : enc) (entry : int) (all : cmd list) (d : (char list * ty) list) (c : cmd) : string =
+let classify ?(third = third_repair) (sy : sys) (en : enc) (entry : int) (all : cmd list) (d : (char list * ty) list) (c : cmd) : string =
   let nm = cmd_name c in
   let at0 base = name_at base N0 in
   if declared nm d then begin
@@ -89,7 +94,9 @@ let classify (sy : sys) (en : enc) (entry : int) (all : cmd list) (d : (char lis
               if wrong_sort then "ill-sorted:symbol-used-at-another-sort"
               else if not later then "use-of-undeclared-symbol"
               else if entry = 0 && is_sig_def && List.mem sn (state_syms 0) then "use-before-declare:init-signal-reads-state"
-              else if entry = 0 && is_state_def && List.mem sn (state_syms 0) then "use-before-declare:init-reads-later-state"
+              else if entry = 0 && is_state_def && List.mem sn (state_syms 0) then
+                (* with patches/0003 the states are in dependency order: what is left is a dependency cycle *)
+                (if third then "use-before-declare:init-dependency-cycle" else "use-before-declare:init-reads-later-state")
               else if entry > 0 && is_sig_def then "use-before-define:later-entry-signal-over-next-only-signal"
               else "use-before-declare:other"
         end
@@ -138,7 +145,9 @@ let names_with_fallback fs : expr -> char list =
 (* the class of the C04 defect that makes a conforming solver reject the script of [init_at 0; unroll^n], if any *)
 let script_defect (sy : sys) (nm : expr -> char list) (n : int) : string option =
   let en = enc_new sy nm in
-  let sc = script code_variant en N0 (N.to_nat (n_of_int n)) in
+  let n' = N.to_nat (n_of_int n) in
+  (* the script of the code in /repo: with the repairs that are applied *)
+  let sc = if third_repair then script3 en n' else if second_repair then script2 en n' else script code_variant en N0 n' in
   match first_bad [] sc with
   | Some (d, c) -> Some (classify sy en 0 sc d c)
   | None -> None
